@@ -30,6 +30,12 @@ impl<K> BTreeSet<K> {
     #[verifier::external_body] pub fn intersection(&self, o: &BTreeSet<K>) -> (r: KvxIntersection<K>) ensures r.nonempty() == !self@.disjoint(o@) { unimplemented!() }
     #[verifier::external_body] pub fn sub(&self, o: &BTreeSet<K>) -> (r: BTreeSet<K>) ensures r@ == self@.difference(o@) { unimplemented!() }
 }
+// `for c in NAMES.iter() { set.remove(c.as_str()); }` (a loop over a stand-in set is not iterable in Verus) is redirected here (R3):
+// removes from a set of borrowed class names every name that is in NAMES
+impl<'a> BTreeSet<&'a str> {
+    #[verifier::external_body] pub fn kvx_remove_all(&mut self, names: &BTreeSet<String>)
+        ensures forall|c: &'a str| #[trigger] final(self)@.contains(c) <==> (old(self)@.contains(c) && !names@.contains(c.as_key())) { unimplemented!() }
+}
 #[verifier::external_body]
 #[verifier::reject_recursive_types(K)]
 pub struct KvxIntersection<K> { p: core::marker::PhantomData<K> }
